@@ -82,7 +82,7 @@ CHECKS = {
 # additions made when the checks were extended (technique suffix, level-text suffix)
 EXTRA = {
  "C01": ("; metamorphic history-independence check over families of related inputs (same Comm-B payload under other headers, truncated / padded copies, other DF / address, one bit apart) evaluated in several orders on one thread; valid frames padded / cut to every wrong length",
-         " Families of related inputs are decoded in the given order, in reverse order and alone after nine unrelated inputs of every kind on one thread: all results for one input must be equal. Every golden frame and one frame per shape is padded with zeros / ones / itself to every length up to 32 and cut short."),
+         " Families of related inputs are decoded alone on a fresh thread (the reference) and then in the given order and in reverse order on the worker thread: every result for an input must equal its reference; one frame per shape is also paired with each single-bit neighbour of its ME / MB field. Every golden frame and one frame per shape is padded with zeros / ones / itself to every length up to 32 and cut short."),
  "C02": ("; history-independence over families of related inputs (truncated or padded copy then the frame, same payload under another header or address)",
          " Checksum, acceptance and recovered address of an input must not depend on what was decoded before it on the same thread (families in several orders)."),
  "C03": ("; addresses also through the address/parity formats (DF0/4/5/16/20/21)", " Addresses are swept through all nine address-carrying formats, on the struct field and the JSON key."),
